@@ -90,6 +90,28 @@ fn check_price(c: &PriceCase, rec: &mut Rec) -> Result<(), String> {
             }
         }
     }
+    // PriceFeedPrice::try_to_price / try_to_ref_price are the same conversion applied to min / max / price
+    {
+        let mut tc: gmsol_utils::token_config::TokenConfig = bytemuck::Zeroable::zeroed();
+        tc.token_decimals = c.token_decimals;
+        tc.precision = c.precision;
+        let (lo, hi) = (c.price / 2, c.price.saturating_add(c.unit_price % 1_000_000));
+        let feed = PriceFeedPrice::new(c.decimals, 0, c.price, lo, hi, 0);
+        let conv = |x: u128| Decimal::try_from_price(x, c.decimals, c.token_decimals, c.precision).ok();
+        let got_price = no_panic(|| feed.try_to_price(&tc)).map_err(|p| format!("try_to_price panicked: {p}"))?.ok();
+        let want_price = match (conv(lo), conv(hi)) {
+            (Some(a), Some(b2)) => Some((a, b2)),
+            _ => None,
+        };
+        if got_price.map(|p| (p.min, p.max)) != want_price {
+            return Err(format!("PriceFeedPrice::try_to_price != try_from_price of min / max for {c:?}"));
+        }
+        let got_ref = no_panic(|| feed.try_to_ref_price(&tc)).map_err(|p| format!("try_to_ref_price panicked: {p}"))?.ok();
+        if got_ref != conv(c.price) {
+            return Err(format!("PriceFeedPrice::try_to_ref_price != try_from_price of the price for {c:?}"));
+        }
+        rec.class_if(want_price.is_some(), "feed_price_converted");
+    }
     // with_unit_price / to_unit_price
     let mult = (c.precision % 21) as u8;
     let base = Decimal { value: 0, decimal_multiplier: mult };
@@ -146,6 +168,8 @@ fn check_price(c: &PriceCase, rec: &mut Rec) -> Result<(), String> {
 
 #[derive(Debug, Clone, Serialize, Deserialize)]
 pub struct PythCase {
+    /// confidence interval of the Pyth price (for pyth_price_with_confidence_to_price)
+    pub conf: u64,
     pub value: u64,
     pub exponent: i32,
     pub token_decimals: u8,
@@ -158,13 +182,14 @@ fn pyth_case() -> impl Strategy<Value = PythCase> {
         prop_oneof![6 => -20i32..=0, 3 => 1i32..=20, 1 => -40i32..=-21, 1 => 21i32..=40, 1 => Just(i32::MIN), 1 => Just(i32::MAX)],
         0u8..=22,
         0u8..=22,
+        prop_oneof![2 => Just(0u64), 3 => 0u64..=1_000, 1 => any::<u64>()],
     )
-        .prop_map(|(value, exponent, token_decimals, precision)| PythCase { value, exponent, token_decimals, precision })
+        .prop_map(|(value, exponent, token_decimals, precision, conf)| PythCase { conf, value, exponent, token_decimals, precision })
         .boxed()
         .prop_union(
             // representable prices with a positive exponent (value * 10^(exponent + precision) must fit 32 bits)
-            (1u64..=40_000, 1i32..=5, 0u8..=16, 0u8..=4)
-                .prop_map(|(value, exponent, token_decimals, precision)| PythCase { value, exponent, token_decimals, precision })
+            (1u64..=40_000, 1i32..=5, 0u8..=16, 0u8..=4, 0u64..=50)
+                .prop_map(|(value, exponent, token_decimals, precision, conf)| PythCase { conf, value, exponent, token_decimals, precision })
                 .boxed(),
         )
 }
@@ -189,6 +214,35 @@ fn check_pyth(c: &PythCase, rec: &mut Rec) -> Result<(), String> {
         Some(floor_div(&b(c.value as u128), &pow10((-shift) as u32)))
     };
     rec.class_if(c.exponent > 0, "positive_exponent");
+    // price with confidence: Ok <=> price fits, price -+ conf do not leave u64 and both bounds convert;
+    // the bounds are exactly the conversions of price - conf and price + conf
+    {
+        let with_conf = no_panic(|| gmsol_utils::oracle::pyth_price_with_confidence_to_price(c.value as i64, c.conf, c.exponent, &tc))
+            .map_err(|p| format!("pyth_price_with_confidence_to_price panicked: {p}"))?;
+        let lo = if (c.value as i64) >= 0 { (c.value as i64 as u64).checked_sub(c.conf) } else { None };
+        let hi = if (c.value as i64) >= 0 { (c.value as i64 as u64).checked_add(c.conf) } else { None };
+        let want = match (lo, hi) {
+            (Some(lo), Some(hi)) => match (gmsol_utils::oracle::pyth_price_value_to_decimal(lo, c.exponent, &tc), gmsol_utils::oracle::pyth_price_value_to_decimal(hi, c.exponent, &tc)) {
+                (Ok(a), Ok(b2)) => Some((a, b2)),
+                _ => None,
+            },
+            _ => None,
+        };
+        match (with_conf, want) {
+            (Ok(p), Some((a, b2))) => {
+                if p.min != a || p.max != b2 {
+                    return Err(format!("price with confidence: bounds ({:?}, {:?}) != conversions of price -+ confidence ({a:?}, {b2:?}) for {c:?}", p.min, p.max));
+                }
+                if p.min.to_unit_price() > p.max.to_unit_price() {
+                    return Err(format!("price with confidence: min above max for {c:?}"));
+                }
+                rec.class("with_confidence_converted");
+            }
+            (Err(_), None) => rec.class("with_confidence_rejected"),
+            (Ok(p), None) => return Err(format!("price with confidence accepted ({:?}, {:?}) although a bound is not representable: {c:?}", p.min, p.max)),
+            (Err(_), Some(_)) => return Err(format!("price with confidence rejected although both bounds convert: {c:?}")),
+        }
+    }
     match got {
         Ok(d) => {
             rec.class("converted");
@@ -226,11 +280,13 @@ pub fn run_c26(ctx: &mut Ctx) {
     ctx.floor("decimal:converted", 10_000);
     ctx.floor("decimal:non_zero_truncation", 5_000);
     ctx.floor("decimal:storage_divided", 5_000);
-    ctx.rule("search `pyth`: pyth_price_value_to_decimal(value u64, exponent -40..=40 and i32 extremes, token decimals / precision 0..=22): Ok(d) => d.value == floor(value * 10^(exponent + precision)) with multiplier 20 - tok - prec; Err only for unsupported settings, |negative exponent| > 20, 10^exponent or value*10^exponent above u64, or an exact value above u32::MAX; never a panic (exponent i32::MIN used to overflow on negation: fixed in 1bbfe9b)");
+    ctx.rule("PriceFeedPrice::try_to_price / try_to_ref_price equal try_from_price of min, max and price; search `pyth`: pyth_price_with_confidence_to_price bounds equal the conversions of price -+ confidence (Ok exactly when both exist); pyth_price_value_to_decimal(value u64, exponent -40..=40 and i32 extremes, token decimals / precision 0..=22): Ok(d) => d.value == floor(value * 10^(exponent + precision)) with multiplier 20 - tok - prec; Err only for unsupported settings, |negative exponent| > 20, 10^exponent or value*10^exponent above u64, or an exact value above u32::MAX; never a panic (exponent i32::MIN used to overflow on negation: fixed in 1bbfe9b)");
     let n2 = ctx.cases(100_000, 5_000_000);
     ctx.search("pyth", n2, pyth_case, check_pyth);
     ctx.floor("pyth:converted", 5_000);
     ctx.floor("pyth:positive_exponent_converted", 1_000);
+    ctx.floor("pyth:with_confidence_converted", 2_000);
+    ctx.floor("decimal:feed_price_converted", 5_000);
 }
 
 // ------------------------------------------------------------------------------------------ C27
